@@ -25,6 +25,8 @@ namespace worlds
     bool multi_ridge = false;            // oceanic plate: two oblique ridge segments offset along a transform fault, spreading velocity varying along them
     int slab_model = 0;                  // 0: plate model; 1: mass conserving; 2: mass conserving with a spline of 4 points
     bool second_slab = false;            // a second, short slab in the north-west (mass conserving, spline of 9 points) dipping west
+    bool long_traces = false;            // three small faults and a small slab on long traces in different directions (along x, along y, diagonal)
+    bool many_depth_points = false;      // the continental plate's max depth is given at 20 points in general position
     bool partial = false;                // features only partly replace what the features before them left: 'add' operations, slab / fault models limited to part of the thickness
   };
 
@@ -54,7 +56,16 @@ namespace worlds
                 ",\"composition models\":[{\"model\":\"uniform\",\"compositions\":[2]}]"
                 ",\"grains models\":[" + uniform_grains("[0,1]", 2, 10) + "]"
                 ",\"velocity models\":[{\"model\":\"uniform raw\",\"velocity\":[0.01,0.02,0.03]}]}");
-    f.push_back("{\"model\":\"continental plate\",\"name\":\"CP\",\"max depth\":" + (o.depth_points ? "[[1.5e5],[0.9e5,[" + P(-2.5,0) + "," + P(-5,5) + "]],[2.1e5,[" + P(-1,-3) + "]]]" : std::string("1.5e5")) + ",\"coordinates\":" + sq(-5,0,-5,5) +
+    std::string many;
+    if (o.many_depth_points)
+      {
+        const double Q[20][3] = {{-4.31,-4.07,1.1e5},{-3.62,-2.83,1.9e5},{-2.95,-4.41,1.3e5},{-1.87,-3.36,2.2e5},{-0.73,-4.22,1.2e5},{-4.52,-1.64,1.7e5},{-3.18,-0.91,1.0e5},{-2.21,-1.77,2.0e5},{-1.09,-0.58,1.4e5},{-0.41,-2.13,1.8e5},
+                                 {-4.07,0.83,2.1e5},{-2.84,1.46,1.15e5},{-1.66,0.37,1.6e5},{-0.62,1.92,1.25e5},{-3.77,2.71,1.45e5},{-2.38,3.29,1.95e5},{-1.21,2.64,1.05e5},{-4.44,4.16,1.35e5},{-3.03,4.48,1.75e5},{-0.88,4.02,2.05e5}};
+        many = "[[1.5e5]";
+        for (auto &q : Q) many += ",[" + num(q[2]) + ",[" + P(q[0], q[1]) + "]]";
+        many += "]";
+      }
+    f.push_back("{\"model\":\"continental plate\",\"name\":\"CP\",\"max depth\":" + (o.many_depth_points ? many : o.depth_points ? "[[1.5e5],[0.9e5,[" + P(-2.5,0) + "," + P(-5,5) + "]],[2.1e5,[" + P(-1,-3) + "]]]" : std::string("1.5e5")) + ",\"coordinates\":" + sq(-5,0,-5,5) +
                 ",\"temperature models\":[{\"model\":\"linear\",\"max depth\":1.5e5,\"top temperature\":300,\"bottom temperature\":1400" + std::string(o.partial ? ",\"operation\":\"add\"" : "") + "}]"
                 ",\"composition models\":[{\"model\":\"uniform\",\"compositions\":[0]" + std::string(o.partial ? ",\"operation\":\"add\"" : "") + "}]"
                 ",\"grains models\":[" + uniform_grains("[0]", 1, 15) + (o.random_models ? ",{\"model\":\"random uniform distribution\",\"compositions\":[1],\"grain sizes\":[-1],\"normalize grain sizes\":[true]}" : "") + "]"
@@ -95,6 +106,20 @@ namespace worlds
                   "\"min distance slab top\":-5e4,\"max distance slab top\":1.2e5,\"apply spline\":true,\"number of points in spline\":9}]"
                   ",\"composition models\":[{\"model\":\"uniform\",\"compositions\":[2]}]}");
     if (o.area_only) f.resize(3);
+    if (o.long_traces)
+      {
+        auto small = [&](const std::string &model, const std::string &name, const std::string &coords, const std::string &dip, double length, double thick, double angle, double T, int comp)
+        {
+          return "{\"model\":\"" + model + "\",\"name\":\"" + name + "\",\"coordinates\":" + coords + ",\"dip point\":" + dip + ",\"segments\":[{\"length\":" + num(length) + ",\"thickness\":[" + num(thick) + "],\"angle\":[" + num(angle) + "]}],"
+                 "\"temperature models\":[{\"model\":\"uniform\",\"temperature\":" + num(T) + "}],\"composition models\":[{\"model\":\"uniform\",\"compositions\":[" + std::to_string(comp) + "]}]}";
+        };
+        // (a far-away plume first, so that the tags come out in the order of the full world: ... plume 3, subducting plate 4, fault 5)
+        f.push_back("{\"model\":\"plume\",\"name\":\"far plume\",\"coordinates\":[" + P(40,40) + "," + P(40,40) + "],\"cross section depths\":[1e5,2e5],\"semi-major axis\":[" + num(0.5*s) + "," + num(0.5*s) + "],\"eccentricity\":[0,0],\"rotation angles\":[0,0]}");
+        f.push_back(small("subducting plate", "S1", "[" + P(4.2,-2) + "," + P(4.4,1) + "," + P(4.2,3.5) + "]", P(20,0), 6e4, 3e4, 50, 644, 3));
+        f.push_back(small("fault", "F1", "[" + P(-4,-4) + "," + P(0,-3.2) + "," + P(4,-4.2) + "]", P(0,-20), 4e4, 3e4, 60, 611, 3));
+        f.push_back(small("fault", "F2", "[" + P(-4.5,4) + "," + P(-4.3,0) + "," + P(-4.5,-2.5) + "]", P(-20,0), 4e4, 3e4, 60, 622, 3));
+        f.push_back(small("fault", "F3", "[" + P(1,4.5) + "," + P(4.5,1) + "]", P(20,20), 4e4, 3e4, 75, 633, 3));
+      }
     std::string m = coord(o.spherical);
     auto MC = [&](const P2 &q) { return o.map ? o.map(q) : q; };
     if (o.cross_section && o.custom_cs) m += ",\"cross section\":[" + pt(MC({{o.cs0[0]*s, o.cs0[1]*s}})) + "," + pt(MC({{o.cs1[0]*s, o.cs1[1]*s}})) + "]";
